@@ -21,6 +21,7 @@ Decided (structural necessary conditions; networkx's search itself is trusted):
  Rn arg roles     : a variable named like a parameter of the callee is handed to that parameter (no exchanged roles).
  R8 request keys  : requests_from_json reads every plainly copied field (source, destination, ...) from the key of the same name.
  R9 end trims     : source-first / destination-last entries are trimmed independently, node and flag together.
+ R10 request defaults: mutable parameter defaults are copied per request (shared with C16).
 """
 import ast
 
@@ -426,6 +427,15 @@ def r9_end_trims(ctx):
     ctx.need('R9.end-trims', 1)
 
 
+
+def r10_request_defaults(ctx):
+    """R10: a request built without an include list has its OWN empty list: parameter defaults that are mutable are copied per
+    instance (the routing code appends the destination to nodes_list / loose_list in place) - rule shared with C16"""
+    from .c16 import r7_defaults as _r
+    from .common import proxy
+    _r(proxy(ctx, 'R10'))
+
+
 from ..memo import rule_for as _memo_rule
 
 RULES_MEMO = ('Rm.memo', _memo_rule('C11', 'a route computed for another request or topology would be returned'))
@@ -436,4 +446,4 @@ from ..presence import rule_for as _presence_rule
 RULES_PRESENCE = ('Rp.presence', _presence_rule('C11', 'a legal zero would be read as missing'))
 
 RULES = [('R1.metric', r1_metric), ('R2.outcomes', r2_outcomes), ('R3.reasons', r3_reasons), ('R4.route-lists', r4_route_lists),
-         ('R5.helpers', r5_helpers), RULES_MEMO, RULES_PRESENCE, ('R6.group-constraints', r6_group_constraints), ('R7.same-request', r7_same_request), ('Ra.alias-mutation', ra_alias), ('Rn.arg-roles', rn_arg_roles), ('R8.request-keys', r8_endpoints_loaded), ('R9.end-trims', r9_end_trims)]
+         ('R5.helpers', r5_helpers), RULES_MEMO, RULES_PRESENCE, ('R6.group-constraints', r6_group_constraints), ('R7.same-request', r7_same_request), ('Ra.alias-mutation', ra_alias), ('Rn.arg-roles', rn_arg_roles), ('R8.request-keys', r8_endpoints_loaded), ('R9.end-trims', r9_end_trims), ('R10.defaults', r10_request_defaults)]
